@@ -96,7 +96,8 @@ PARTIAL = None
 
 MTIME = 1700000000
 STALE = email.utils.formatdate(MTIME - 86400, usegmt=True)
-CTS = ["text/plain", "a/b", "application/x-verif-long-content-type; charset=utf-8"]
+CTS = ["text/plain", "a/b", "application/x-verif-long-content-type; charset=utf-8",
+       "text/x-caf\xe9; title=\xfcber\xff"]       # Latin-1 beyond ASCII: one byte per character on the wire
 
 # ---- fixtures ------------------------------------------------------------------------
 
@@ -700,6 +701,8 @@ def cases(rng, tier):
         for side, zc in SIDES:
             yield mk(side, zc, "GET", h, None, 64, size, CTS[2])
             yield mk(side, zc, "HEAD", h, None, 64, size, CTS[2])
+            yield mk(side, zc, "GET", h, None, 64, size, CTS[3])
+            yield mk(side, zc, "HEAD", h, None, 64, size, CTS[3])
     # 4. C03's exhaustive small range sets, through the whole response
     nums = ["", "0", "1", "2", "4", "5", "9", "10"]
     specs = ["%s-%s" % (a, b) for a in nums for b in nums]
